@@ -243,7 +243,8 @@ pub fn render(p: &Program, deco: u64, spacing: u64, o: &Opts) -> Rendered {
                 let expr = open.starts_with("{$if ") || open.starts_with("(*$if ");
                 dir_before[end].insert(0, if expr { ["{$ifend}", "(*$IfEnd*)"][r.gen_range(0..2)] } else { ["{$endif}", "{$endif}", "(*$endif*)", "(*$EndIf Debug *)"][r.gen_range(0..4)] }.to_string());
                 // now and then further (empty) branches whose expressions hide their own closing delimiter
-                if expr && r.gen_range(0..3) == 0 {
+                // (statements only: a declaration that vanishes under some valuation can change what the declarations after it are)
+                if expr && *kind == 'S' && r.gen_range(0..3) == 0 {
                     dir_before[end].insert(0, ["{$else}", "(*$ELSE*)"][r.gen_range(0..2)].to_string());
                     dir_before[end].insert(0, ["{$elseif Other = '}'}", "(*$ELSEIF x = '*)' *)", "{$elseif {$I v.inc} > 3}", "{$ElseIf Defined(B)}"][r.gen_range(0..4)].to_string());
                 }
